@@ -61,7 +61,7 @@ theorem c06_partial_nothing_else (m : Msg) (t : Tree) (a : List Nat) (hne : m.en
   simpa using this
 
 /-- non-vacuity: [1] added and [2] removed in one notification, [0] not mentioned -/
-example : addrs (notifyPartialFixed ⟨[⟨[1], 1, .added⟩, ⟨[2], 1, .removed⟩], [⟨[1], 1, 1, 0⟩]⟩
-    [⟨[0], 0, []⟩, ⟨[2], 1, []⟩]).1 = [[0], [1]] := by decide
+example : addrs (notifyPartialFixed ⟨[⟨[1], 1, .added, none⟩, ⟨[2], 1, .removed, none⟩], [⟨[1], 1, 1, 0, none, []⟩]⟩
+    [⟨[0], 0, none, []⟩, ⟨[2], 1, none, []⟩]).1 = [[0], [1]] := by decide
 
 end Spine.Disc
